@@ -40,10 +40,13 @@ def scoped(c):
 
 EXPR = {'local': 'ln', 'hostglobal': 'GN', 'builtin': 'len((1,2,3))', 'shadow_lg': 'sh', 'shadow_gb': 'abs',
         'agentonly': 'len(uuid.__name__)', 'undefined': 'no_such_name_q',
-        'local_nested': '(lambda: ln)()', 'shadow_nested': 'next(sh for _ in (1,))'}
-VALUE = {'L': {'local': 11, 'shadow_lg': 33, 'local_nested': 11, 'shadow_nested': 33}, 'G': {'hostglobal': 22, 'shadow_gb': 55}, 'B': {'builtin': 3}}
+        'local_nested': '(lambda: ln)()', 'shadow_nested': 'next(sh for _ in (1,))',
+        # locals() is the paused frame's locals: `ln` is in it, the module global `GN` is not
+        'via_locals': "locals()['ln'] + (1000 if 'GN' in locals() else 0)"}
+VALUE = {'L': {'local': 11, 'shadow_lg': 33, 'local_nested': 11, 'shadow_nested': 33, 'via_locals': 11}, 'G': {'hostglobal': 22, 'shadow_gb': 55}, 'B': {'builtin': 3}}
 # what a wrong resolution would produce (used to recognise "resolved although it must not")
-WRONG = {'agentonly': {'4'}, 'undefined': set(), 'shadow_lg': {'44'}, 'shadow_gb': set(), 'shadow_nested': {'44'}}
+WRONG = {'agentonly': {'4'}, 'undefined': set(), 'shadow_lg': {'44'}, 'shadow_gb': set(), 'shadow_nested': {'44'},
+         'via_locals': {'1011'}}
 NB_EXPR = 'ln + 100'     # the neighbouring well-behaved expression, value 111
 
 
